@@ -2,7 +2,7 @@
 """Runs the quick check of a property against seeded changes in a scratch worktree (VERIF_REPO), never in /repo.
 usage: seedtest.py <prop> <diff> [<diff> ...]   prints one line per diff: DETECTED / MISSED with the exit code"""
 import sys, os, subprocess, json
-WT = '/tmp/mutrun'
+WT = os.environ.get('SEED_WT', '/tmp/mutrun')
 def sh(cmd, **kw): return subprocess.run(cmd, shell=True, stdout=subprocess.PIPE, stderr=subprocess.STDOUT, universal_newlines=True, **kw)
 prop = sys.argv[1]
 tier = os.environ.get('SEED_TIER', 'quick')
@@ -14,7 +14,7 @@ for d in sys.argv[2:]:
     a = sh('git -C %s apply %s' % (WT, d))
     if a.returncode:
         print('APPLY-FAILED', d, a.stdout[-200:]); continue
-    env = dict(os.environ, VERIF_REPO=WT, VP_EVIDENCE_DIR='/tmp/mut_evidence', VP_REPLAY_DIR='/tmp/mut_replays')
+    env = dict(os.environ, VERIF_REPO=WT, VP_EVIDENCE_DIR=WT + '_evidence', VP_REPLAY_DIR=WT + '_replays')
     r = subprocess.run(['/verif/check', prop, '--tier', tier], stdout=subprocess.PIPE, stderr=subprocess.STDOUT, universal_newlines=True, env=env, cwd='/verif')
     lines = [l for l in r.stdout.split('\n') if l.startswith('  ') or 'UNCONFIRMED' in l or 'ENGINE-ERROR' in l or 'INCONCLUSIVE' in l or 'MISMATCH' in l]
     verdict = 'DETECTED' if r.returncode == 1 else ('ENGINE-FLAGGED(rc=%d)' % r.returncode if r.returncode else 'MISSED')
